@@ -266,11 +266,11 @@ def build(prop, clean=False):
             cur = None
             text = re.sub(r"\n[ \t]+", " ", out)      # `#print axioms` wraps long names / axiom lists onto indented lines
             for line in text.splitlines():
-                m = re.match(r"'([^']+)' depends on axioms: \[(.*)\]", line)
+                m = re.match(r"'(.+)' depends on axioms: \[(.*)\]", line)          # names may contain primes
                 if m:
                     res.axioms[m.group(1)] = [a.strip() for a in m.group(2).split(",") if a.strip()]
                     continue
-                m = re.match(r"'([^']+)' does not depend on any axioms", line)
+                m = re.match(r"'(.+)' does not depend on any axioms", line)
                 if m:
                     res.axioms[m.group(1)] = []
             for t in prop.theorems + prop.generated_obligations:
